@@ -39,6 +39,11 @@ class Beh(base.Behaviour):
         self.dh = dh
         self.mh = mh
 
+    def connect(self, sid, environ):
+        if environ.get('HTTP_X_REJECT'):
+            return [('return', False)]
+        return []
+
     def message(self, sid, data):
         if self.mh == 'raise':
             return [('raise', 'message handler failure')]
@@ -75,6 +80,10 @@ class Events(core.Scenario):
             behaviour=Beh(p['dh'], p.get('mh', 'record')), **extra)
         self.inj = []          # (cause, step, time)
         self.ws = None
+        if p.get('reject_first'):
+            # the very first connection attempt this server sees is rejected by the application
+            w.http('GET', peer.BASEQ, headers={'X-Reject': '1'})
+            w.run()
         if tr == 'ws_only':
             self.ws = peer.ws_open(w)
             self.A = [e[1] for e in w.events if e[0] == 'connect'][-1]
@@ -238,6 +247,8 @@ def param_list(ctx):
                 for dh in (('record', 'yield') if ctx.quick else DH):
                     ps.append({'impl': impl, 'transport': tr, 'causes': list(cs), 'dh': dh})
             ps.append({'impl': impl, 'transport': tr, 'causes': [causes[0]], 'dh': 'record', 'mh': 'raise'})
+            ps.append({'impl': impl, 'transport': tr, 'causes': ['silence'], 'dh': 'record', 'reject_first': True})
+            ps.append({'impl': impl, 'transport': tr, 'causes': [causes[0]], 'dh': 'record', 'reject_first': True})
             # a MESSAGE that may be delivered while the disconnect handler of another cause is suspended
             racer = 'post_msg' if tr == 'polling' else 'frame_msg'
             for c0 in (causes[0], 'api_disc'):
